@@ -355,6 +355,11 @@ impl GrandState {
             ));
         }
         if option == EnterSubshellOption::Ignore {
+            if self.current_state.action != Action::Ignore {
+                // The shell itself imposes this ignore; it is not inherited
+                // from the environment, so the subshell may still trap it.
+                self.current_state.origin = Origin::Subshell;
+            }
             self.current_state.action = Action::Ignore;
         }
 
